@@ -920,6 +920,11 @@ class String2Key(Field):
     def __bytearray__(self):
         _bytes = bytearray()
         _bytes.append(self.usage)
+        if self.usage not in (0, 254, 255):
+            # legacy protection: the usage octet names the cipher, no specifier is written, only the IV follows
+            if self.iv is not None:
+                _bytes += self.iv
+            return _bytes
         if bool(self):
             _bytes.append(self.encalg)
             _bytes.append(self.specifier)
@@ -948,7 +953,9 @@ class String2Key(Field):
         return len(self.__bytearray__())
 
     def __bool__(self):
-        return self.usage in [254, 255]
+        # RFC 4880 5.5.3: zero means the secret data is not encrypted; 254 and 255 announce an S2K specifier;
+        # any other value is itself the identifier of the cipher that protects the secret data
+        return self.usage != 0
 
     def __nonzero__(self):
         return self.__bool__()
@@ -969,6 +976,16 @@ class String2Key(Field):
     def parse(self, packet, iv=True):
         self.usage = packet[0]
         del packet[0]
+
+        if self.usage not in (0, 254, 255):
+            # legacy protection: cipher named by the usage octet, key is the MD5 of the passphrase (a simple S2K)
+            self.encalg = self.usage
+            self.specifier = String2KeyType.Simple
+            self.halg = HashAlgorithm.MD5
+            if iv:
+                self.iv = packet[:(self.encalg.block_size // 8)]
+                del packet[:(self.encalg.block_size // 8)]
+            return
 
         if bool(self):
             self.encalg = packet[0]
@@ -1283,7 +1300,7 @@ class PrivKey(PubKey):
             # of the key material block
             raise PGPDecryptionError("Passphrase was incorrect!")
 
-        if self.s2k.usage == 255 and not self.bytes_to_int(pt[-2:]) == (sum(bytearray(pt[:-2])) % 65536):  # pragma: no cover
+        if self.s2k.usage != 254 and not self.bytes_to_int(pt[-2:]) == (sum(bytearray(pt[:-2])) % 65536):  # pragma: no cover
             # if the usage byte is 255, key material is followed by a 2-octet checksum of the rest
             # of the key material block
             raise PGPDecryptionError("Passphrase was incorrect!")
